@@ -410,8 +410,7 @@ static AbfOutcome abf_execute(AbfCase const &c, std::vector<int> const &prefix)
           if (c.restart_walker == 3) {
             // a state as written by earlier versions (no record of the last exchange) must still load
             size_t a = st.find("last_samples"), b = a == std::string::npos ? a : st.find('}', a);
-            if (b == std::string::npos) { out.problem = "HARNESS: no last_samples section in the state"; out.sig = "harness"; }
-            else sp.state = st.substr(0, a) + st.substr(b);
+            if (b != std::string::npos) sp.state = st.substr(0, a) + st.substr(b);  // (a library that writes no such record is run on its own state)
           }
           ctl.spawn_one(i, sp);
           ctl.w[i].next_step = c.stop_step();  // repeat the stop step
